@@ -171,28 +171,125 @@ def run_factor(chk: Check, prog: Program, S: Summaries) -> None:
         chk.undecided("C16.R4", "C16.R4:factor:shape", "factor()", f"{len(loops)} loops: shape not recognised", where)
         return
     loop = loops[0]
-    # ---- trial range: range(2, int(sqrt(value) + 1))
-    it_src = unparse(loop.iter).replace(" ", "")
-    assigns = {}
-    for n in ast.walk(f.node):
-        if isinstance(n, (ast.Assign, ast.AnnAssign)):
-            t = n.targets[0] if isinstance(n, ast.Assign) else n.target
-            if isinstance(t, ast.Name) and n.value is not None:
-                assigns.setdefault(t.id, []).append(unparse(n.value).replace(" ", ""))
-    ok_range = False
-    if isinstance(loop.iter, ast.Call) and unparse(loop.iter.func) == "range" and len(loop.iter.args) == 2 \
-            and unparse(loop.iter.args[0]) == "2" and isinstance(loop.iter.args[1], ast.Name):
-        hi = loop.iter.args[1].id
-        defs = assigns.get(hi, [])
-        ok_range = any(d in (f"int({hi}+1)", "int(np.sqrt(value)+1)", "int(math.sqrt(value)+1)", "math.isqrt(value)+1")
-                       for d in defs) and any("sqrt(value)" in d for d in defs + assigns.get("sqrt", []))
-    chk.verdict(True if ok_range else None, "C16.R4", "C16.R4:factor:range", f"trial divisors: for i in {unparse(loop.iter)}",
-                "" if ok_range else "trial range not recognised as 2..floor(sqrt(value))", where=where)
-    # ---- seeds
-    seeds = {unparse(n).replace(" ", "") for n in ast.walk(f.node) if isinstance(n, (ast.Assign, ast.AnnAssign))}
-    has_seed = any("{1:value}" in s for s in seeds) and any(s.startswith("factors[value]=1") for s in seeds)
-    chk.verdict(True if has_seed else None, "C16.R4", "C16.R4:factor:seeds", "seed entries (1, value) and (value, 1)",
-                "" if has_seed else "seed entries not recognised", where=where)
+    # ---- trial range: the statements before the loop are interpreted on a symbolic positive value, the bounds of the
+    # range() call are read off as terms, and the terms are evaluated for every value of a bounded domain: every trial
+    # divisor 2 <= i <= sqrt(value) must lie in the range (a wider range is fine)
+    range_problem = None
+    lo_hi = None
+    if isinstance(loop.iter, ast.Call) and unparse(loop.iter.func) == "range" and 1 <= len(loop.iter.args) <= 2 \
+            and not loop.iter.keywords:
+        stmts_before = []
+        for st in f.node.body:
+            if st is loop:
+                break
+            stmts_before.append(st)
+        if loop not in f.node.body:
+            range_problem = "the divisor loop is not a top-level statement of factor()"
+        else:
+            def body_r(it: Interp):
+                env = Env(it, f, f.module)
+                env.vars["value"] = Num(("sym", "value"))
+                it.assume_sign(("sym", "value"), frozenset(["pos"]))
+                it.hooks["ext:numpy.sqrt"] = lambda it2, path, args, kwargs: Num(("fn", "sqrt", it2.to_term(args[0])))
+                it.hooks["ext:math.sqrt"] = it.hooks["ext:numpy.sqrt"]
+                it.hooks["ext:math.isqrt"] = lambda it2, path, args, kwargs: Num(("fn", "int", ("fn", "sqrt", it2.to_term(args[0]))))
+                it.hooks["ext:numpy.seterr"] = lambda it2, path, args, kwargs: None
+                it.hooks["ext:math.isnan"] = lambda it2, path, args, kwargs: False
+                it.hooks["ext:numpy.isnan"] = it.hooks["ext:math.isnan"]
+                it.exec_block(stmts_before, env)
+                args = [it.eval(a_, env) for a_ in loop.iter.args]
+                return args
+            try:
+                paths = [p_ for p_ in explore(prog, body_r, {"max_updepth": 0, "hooks": S.hooks()}, max_paths=64)
+                         if p_.outcome == "return"]
+            except Exception as e:  # noqa: BLE001 - anything the interpreter cannot follow leaves the clause undecided
+                paths = []
+                range_problem = f"statements before the loop could not be interpreted: {e}"
+            if paths and range_problem is None:
+                bad_value = None
+                for p_ in paths:
+                    terms = [p_.interp.to_term(x) for x in p_.value]
+                    if any(t is None for t in terms):
+                        range_problem = f"range bounds are not numbers: {p_.value!r}"
+                        break
+                    lo_t, hi_t = (A.lit(0), terms[0]) if len(terms) == 1 else terms
+                    lo_hi = (A.term_str(lo_t), A.term_str(hi_t))
+                    for v_ in list(range(1, 1025)) + [2047, 2048, 2049, 4095, 4096, 4097, 9999, 10000, 10001, 65535, 65536, 65537,
+                                                      999999, 1000000, 1000001]:
+                        env_ = {("sym", "value"): float(v_)}
+                        try:
+                            lo_v, hi_v = A.evaluate(lo_t, env_), A.evaluate(hi_t, env_)
+                        except A.Undefined:
+                            bad_value = (v_, "bounds undefined")
+                            break
+                        need_hi = int(v_ ** 0.5)
+                        while (need_hi + 1) ** 2 <= v_:
+                            need_hi += 1
+                        while need_hi ** 2 > v_:
+                            need_hi -= 1
+                        if need_hi >= 2 and not (lo_v <= 2 and hi_v > need_hi):
+                            bad_value = (v_, f"range({lo_v:g}, {hi_v:g}) misses a trial divisor in 2..{need_hi}")
+                            break
+                    if bad_value:
+                        break
+                if bad_value and range_problem is None:
+                    chk.fail("C16.R4", "C16.R4:factor:range", f"trial divisors: for i in {unparse(loop.iter)}",
+                             f"for value = {bad_value[0]}: {bad_value[1]}", witness={"value": bad_value[0]}, where=where)
+                    range_problem = "reported"
+            elif range_problem is None:
+                range_problem = "no path reaches the loop for a positive value"
+    else:
+        range_problem = "the loop does not iterate over range(...)"
+    if range_problem is None:
+        chk.ok("C16.R4", "C16.R4:factor:range", f"trial divisors: for i in {unparse(loop.iter)} = range({lo_hi[0]}, {lo_hi[1]})",
+               "covers 2..floor(sqrt(value)) for every value in 1..1024 and 15 values around larger squares", where=where)
+    elif range_problem != "reported":
+        chk.undecided("C16.R4", "C16.R4:factor:range", f"trial divisors: for i in {unparse(loop.iter)}", range_problem, where)
+    # ---- seeds: the table at loop entry (statements before the loop interpreted on a symbolic positive value) holds
+    # 1 -> value and value -> 1
+    seed_problem = None
+    if loop in f.node.body:
+        def body_s(it: Interp):
+            env = Env(it, f, f.module)
+            env.vars["value"] = Num(("sym", "value"))
+            it.assume_sign(("sym", "value"), frozenset(["pos"]))
+            it.assume_sign(("sub", ("sym", "value"), A.lit(1)), frozenset(["pos"]))   # value = 1 has the single entry 1 -> 1
+            it.hooks["ext:numpy.sqrt"] = lambda it2, path, args, kwargs: Num(("fn", "sqrt", it2.to_term(args[0])))
+            it.hooks["ext:math.sqrt"] = it.hooks["ext:numpy.sqrt"]
+            it.hooks["ext:math.isqrt"] = lambda it2, path, args, kwargs: Num(("fn", "int", ("fn", "sqrt", it2.to_term(args[0]))))
+            it.hooks["ext:numpy.seterr"] = lambda it2, path, args, kwargs: None
+            it.hooks["ext:math.isnan"] = lambda it2, path, args, kwargs: False
+            it.hooks["ext:numpy.isnan"] = it.hooks["ext:math.isnan"]
+            it.exec_block([st for st in f.node.body[:f.node.body.index(loop)]], env)
+            tables = [v_ for v_ in env.vars.values() if isinstance(v_, Dct)]
+            return tables
+        try:
+            for p_ in explore(prog, body_s, {"max_updepth": 0, "hooks": S.hooks()}, max_paths=64):
+                if p_.outcome != "return":
+                    seed_problem = f"{p_.outcome} before the loop: {p_.exc or p_.note}"
+                    break
+                tables = p_.value
+                v = ("sym", "value")
+                ok_seed = False
+                for t_ in tables:
+                    ents = [(p_.interp.to_term(k_), p_.interp.to_term(x_)) for k_, x_ in t_.items.items()]
+
+                    def has_(a_, b_):
+                        return any(x is not None and y is not None and A.equal_nf(x, a_) and A.equal_nf(y, b_) for x, y in ents)
+                    if has_(A.lit(1), v) and has_(v, A.lit(1)):
+                        ok_seed = True
+                if not ok_seed:
+                    seed_problem = "the table at loop entry lacks 1 -> value or value -> 1"
+        except Exception as e:  # noqa: BLE001
+            seed_problem = f"statements before the loop could not be interpreted: {e}"
+    else:
+        seed_problem = "the divisor loop is not a top-level statement of factor()"
+    if seed_problem is None:
+        chk.ok("C16.R4", "C16.R4:factor:seeds", "seed entries (1, value) and (value, 1) are in the table at loop entry", where=where)
+    elif seed_problem.startswith("the table"):
+        chk.fail("C16.R4", "C16.R4:factor:seeds", "seed entries (1, value) and (value, 1)", seed_problem, where=where)
+    else:
+        chk.undecided("C16.R4", "C16.R4:factor:seeds", "seed entries (1, value) and (value, 1)", seed_problem, where)
     # ---- loop body on a symbolic trial divisor
     target = loop.target.id if isinstance(loop.target, ast.Name) else None
     if target is None:
